@@ -155,9 +155,23 @@ def query(net, rng):
         modes.reverse()
     for r in modes:
         try:
-            net.is_valid(raises=r)
+            out = net.is_valid(raises=r)
         except Exception:
-            pass
+            continue
+        # the returned list of messages is the caller's: popping them while logging, clearing it or adding
+        # a remark of one's own must not change the next verdict (the in-situ monitor decides every call)
+        if isinstance(out, tuple) and len(out) == 2 and isinstance(out[1], list) and rng.random() < 0.4:
+            how = rng.choice(("clear", "append", "pop"))
+            if how == "clear":
+                out[1].clear()
+            elif how == "append":
+                out[1].append("a remark added by the caller")
+            elif out[1]:
+                out[1].pop()
+            try:
+                net.is_valid(raises=rng.random() < 0.3)
+            except Exception:
+                pass
 
 
 def exhaustive(M, rec, rng, nmax, k, nsh, role_sample=None):
